@@ -719,6 +719,10 @@ def run(ctx: Context, rep) -> None:
 
 _U = "src/sedpack/io/utils.py"
 SELFTESTS = [
+    dict(rule="C16.objects", name="xxh64-object-kept", expect="fire", edits=[
+        dict(path=_U, old="import xxhash\n", new="import xxhash\n_KEPT: dict = {}\n"),
+        dict(path=_U, old="        case \"xxh64\":\n            return xxhash.xxh64()",
+             new="        case \"xxh64\":\n            _KEPT.setdefault(name, xxhash.xxh64()).reset()\n            return _KEPT[name]")]),
     dict(rule="C16.live-config", name="filler-snapshots-structure", expect="fire",
          path="src/sedpack/io/dataset_filler.py",
          old="        self._dataset_structure: DatasetStructure = dataset_structure\n",
